@@ -327,6 +327,31 @@ def _m_neg_error_text():
         "Not enough room for %(resource_class)s on %(resource_provider)s.")
 
 
+def _m_process_cache_provider_traits():
+    # C11/C10: a per-PROCESS cache of a provider's trait rows, invalidated by
+    # the writes of the same process only - exact with one worker, stale as
+    # soon as a second worker process writes
+    from placement.objects import trait as t
+    from placement.objects import resource_provider as rp
+    cache = {}
+    orig_get = t.get_traits_by_provider_id
+    orig_set = rp._set_traits
+
+    def get_traits_by_provider_id(context, rp_id):
+        if rp_id not in cache:
+            cache[rp_id] = orig_get(context, rp_id)
+        return list(cache[rp_id])
+
+    def _set_traits(context, rp_, traits):
+        cache.pop(rp_.id, None)
+        try:
+            return orig_set(context, rp_, traits)
+        finally:
+            cache.pop(rp_.id, None)
+    t.get_traits_by_provider_id = get_traits_by_provider_id
+    rp._set_traits = _set_traits
+
+
 MUTANTS = {
     'rp-cas-dropped': _m_rp_cas_dropped,
     'consumer-cas-dropped': _m_consumer_cas_dropped,
@@ -351,6 +376,7 @@ MUTANTS = {
     'alloc-post-partial': _m_alloc_post_partial,
     'rc-id-retry-dropped': _m_rc_id_retry_dropped,
     'rc-next-id-reuses-gap': _m_rc_next_id_reuses_gap,
+    'process-cache-provider-traits': _m_process_cache_provider_traits,
     'neg-error-text': _m_neg_error_text,
 }
 
@@ -379,6 +405,7 @@ EXPECTED = {
     'alloc-post-partial': ['C04', 'C18'],
     'rc-id-retry-dropped': ['C19'],
     'rc-next-id-reuses-gap': ['C19'],
+    'process-cache-provider-traits': ['C11'],
     'neg-error-text': [],
 }
 
